@@ -213,7 +213,7 @@ def run_unit_stable(unit, threads=4, seed=None):
         known = set(x.get("obligation") for x in json.load(open(os.path.join(VERIF, "known_findings.json")))["findings"] if x.get("status") == "known")
     except Exception:
         known = set()
-    if r["status"] == "violation" and all("%s/%s" % (unit, f.get("fn")) in known for f in r.get("failed", [])):
+    if r["status"] == "violation" and not r.get("undecided_errors") and all("%s/%s" % (unit, f.get("fn")) in known for f in r.get("failed", [])):
         return r  # only the residual obligations of recorded known findings failed: nothing to re-attribute
     if r["status"] == "violation" or (r["status"] == "undecided" and r.get("undecided_errors")):
         r2 = classify(run_unit(unit, rlimit=40 if r["status"] == "undecided" else None, threads=max(threads, 8), seed=seed, spinoff=True))
